@@ -59,6 +59,20 @@ func c12Lifecycle(run *evid.Run) (cases int) {
 						if n, ok := st.Node("nB"); !ok || !n.Unreachable {
 							evid.Fatal("lifecycle %s: the silent node was not flagged", desc)
 						}
+						// nothing is heard: the level only grows, tick after tick, and the
+						// node stays suspected
+						before := fd.real.SuspicionLevelAt("nB", fd.now)
+						for tick := 1; tick <= 3; tick++ {
+							advance(steady)
+							lvl := fd.real.SuspicionLevelAt("nB", fd.now)
+							st.UpdateLiveness(float64(gossip.VSuspicionThreshold))
+							n, ok := st.Node("nB")
+							if lvl < before || !ok || !n.Unreachable {
+								fail("level-not-monotone", fmt.Sprintf("%d liveness tick(s) after the node was flagged, with no arrival in between, its level went from %v to %v (flagged: %v)", tick, before, lvl, ok && n.Unreachable))
+								break
+							}
+							before = lvl
+						}
 					}
 					st.RemoveExpiredAt(time.Now().Add(3 * gossip.VNodeExpiry))
 					if _, ok := st.Node("nB"); ok {
